@@ -378,3 +378,87 @@ func VerifH_C08_seq() {
 	vCover("C08.seq.continuation", len(s.handled) == 1 && ref.sawCont)
 	vCover("C08.seq.held", ref.hold && len(s.handled) == 1 && late.headers[1] == 1)
 }
+
+// One frame of every type 0x0..0xa (0xa is not defined) with a payload of the
+// right shape, on stream 0 or on stream 5 (idle), after one request has been
+// served on stream 1: frame types that belong to a stream are a connection
+// error of type PROTOCOL_ERROR on stream 0, connection-level types are one on
+// a stream, PUSH_PROMISE from a client always is (RFC 7540 6.1-6.10, 8.2); an
+// unknown type is ignored (4.1) and the next request is served. GOAWAY from the
+// client is legal on stream 0 and does not stop what is in progress.
+//
+//verif:harness prop=C08,C10 unwind=64 timeout=600
+func VerifH_C08_zero() {
+	s := vStartServer(8)
+	s.send(vFrame(0x1, 0x5, 1, vReqBlock('1')))
+	s.replies()
+	typ := byte(vRange(0, 10))
+	onZero := vBool()
+	id := uint32(5)
+	if onZero {
+		id = 0
+	}
+	var pl []byte
+	flags := byte(0)
+	switch typ {
+	case 0x0:
+		pl = []byte("x")
+	case 0x1:
+		pl, flags = vReqBlock('5'), 0x5
+	case 0x2:
+		pl = []byte{0, 0, 0, 1, 7}
+	case 0x3:
+		pl = []byte{0, 0, 0, 8}
+	case 0x4:
+		pl = nil
+	case 0x5:
+		pl, flags = append([]byte{0, 0, 0, 2}, vReqBlock('p')...), 0x4
+	case 0x6:
+		pl = []byte{1, 2, 3, 4, 5, 6, 7, 8}
+	case 0x7:
+		pl = []byte{0, 0, 0, 1, 0, 0, 0, 0}
+	case 0x8:
+		pl = []byte{0, 0, 0, 1}
+	case 0x9:
+		pl, flags = nil, 0x4
+	default:
+		pl = []byte{1, 2, 3}
+	}
+	s.send(vFrame(typ, flags, id, pl))
+	r := vClassify(s.replies())
+	vNote(fmt.Sprintf("type %d on stream %d: goaway=%v/%d rst=%v headers=%v", typ, id, r.goaway, r.goawayCode, r.rst, r.headers))
+	mustFail := false
+	switch typ {
+	case 0x0, 0x1, 0x2, 0x3, 0x9: // stream frames
+		mustFail = onZero
+		if typ == 0x0 || typ == 0x3 || typ == 0x9 {
+			mustFail = true // also on an idle stream (5.1), and CONTINUATION out of place (6.10)
+		}
+	case 0x8:
+		mustFail = !onZero // fine for the connection; on an idle stream it is not (5.1)
+	case 0x4, 0x6, 0x7: // connection frames
+		mustFail = !onZero
+	case 0x5:
+		mustFail = true
+	}
+	if mustFail {
+		vAssert(r.goaway, "C08.zero.connection-error")
+		if r.goaway {
+			vAssert(r.goawayCode == ProtocolError, "C08.zero.protocol-error")
+		}
+		return
+	}
+	vAssert(!r.goaway && len(r.rst) == 0, "C08.zero.legal-frame-is-no-error")
+	if typ == 0x1 {
+		vAssert(r.headers[5] == 1, "C08.zero.request-served")
+		return
+	}
+	if typ == 0x7 {
+		return // the client is going away: nothing more is owed
+	}
+	// the connection is as good as before
+	s.send(vFrame(0x1, 0x5, 7, vReqBlock('7')))
+	r = vClassify(s.replies())
+	vAssert(!r.goaway && r.headers[7] == 1 && r.endStream[7] == 1, "C08.zero.next-request-served")
+	vCover("C08.zero.unknown-type-ignored", typ == 0xa)
+}
